@@ -128,6 +128,9 @@ class Interp:
         self.bound = bound
         self.unknown = []      # constructs the interpreter did not understand (reported, fail closed)
         self.trace = []        # structural decisions: ("opt", path, taken) / ("arm", path, variant) / ("size", path, n)
+        self.indent = 0        # curr_indent relative to the entry of the method, in units of indent_size
+        self.underflow = None  # line of a `curr_indent -= indent_size` taken below the entry level
+        self.depth = 0
 
     # ---- values
     def size(self, path):
@@ -399,11 +402,25 @@ class Interp:
                 v = self.eval(e["args"][0], env)
                 self.out.append(("S", CHILD[m], v[1] if v[0] == "path" else "?"))
                 return
-            if m in INLINE:
-                v = self.eval(e["args"][0], env)
+            recv_self = e["recv"].get("k") == "path" and e["recv"]["v"].replace(" ", "") == "self"
+            if recv_self and m in self.methods and m not in IGNORED_CALLS and self.depth < 4:
+                # any other method of the printer is interpreted in place; `&mut local` arguments are copied back
                 it = self.methods[m]
-                pname = [p["name"] for p in it["sig"]["params"] if "self" not in p["name"]][0]
-                self.exec_block(it["body"]["stmts"], {pname: v})
+                params = [p["name"].replace("mut ", "").strip() for p in it["sig"]["params"] if "self" not in p["name"]]
+                cenv = {}
+                back = []
+                for pn, a in zip(params, e["args"]):
+                    cenv[pn] = self.eval(a, env)
+                    if a.get("k") == "ref" and a.get("mut") and a["e"].get("k") == "path":
+                        back.append((pn, a["e"]["v"].replace(" ", "")))
+                self.depth += 1
+                self.assigned = tuple(set(self.assigned) | set(params))
+                self.exec_block(it["body"]["stmts"], cenv)
+                self.depth -= 1
+                for pn, local in back:
+                    if local in env:
+                        env[local] = cenv[pn]
+                        self.assigned = tuple(set(self.assigned) | {local})
                 return
             return
         if k == "if":
@@ -417,7 +434,20 @@ class Interp:
             self.exec_block(e["stmts"], env2)
             self.merge_back(env, env2)
             return
+        if k == "binary" and e["op"].strip() in ("+=", "-="):
+            l = e["l"]
+            if l.get("k") == "field" and l["name"].replace(" ", "") == "curr_indent":
+                self.indent += 1 if e["op"].strip() == "+=" else -1
+                if self.indent < 0 and self.underflow is None:
+                    self.underflow = e.get("ln")
+            return
         if k == "assign":
+            if e["l"].get("k") == "unary" and e["l"]["op"].strip() == "*" and e["l"]["e"].get("k") == "path":
+                nm = e["l"]["e"]["v"].replace(" ", "")
+                if nm in env:
+                    env[nm] = self.eval(e["r"], env)
+                    self.assigned = tuple(set(self.assigned) | {nm})
+                return
             if e["l"].get("k") == "path":
                 nm = e["l"]["v"].replace(" ", "")
                 if nm in env:
@@ -494,6 +524,7 @@ def arm_sentences(F, fn_name, bound=BOUND):
         if not m:
             raise AnchorError("unrecognised arm pattern %s in %s" % (pat, fn_name))
         unknown = set()
+        underflows = []
         b = bound
         while True:
             def run(ch):
@@ -502,15 +533,19 @@ def arm_sentences(F, fn_name, bound=BOUND):
                 I.top = (top, idx)
                 I.exec_block(it["body"]["stmts"], {params[0]: ("path", "")})
                 unknown.update(I.unknown)
+                if I.underflow is not None:
+                    underflows.append((I.underflow, tuple(I.out), tuple(I.trace)))
                 return (tuple(I.out), tuple(I.trace))
             try:
+                del underflows[:]
                 res = explore(run)
                 break
             except Budget:
                 b -= 1
                 if b < 2:
                     raise AnchorError("printer arm %s::%s: more than %d shapes at loop bound 2" % (m.group(1), m.group(2), MAX_RUNS))
-        out[m.group(2)] = (set(res), a["ln"], len(res), sorted(unknown), b)   # {(symbols, decision trace)}
+        # (symbol sequences with decision traces, line, runs, unknown constructs, bound, indentation underflows)
+        out[m.group(2)] = (set(res), a["ln"], len(res), sorted(unknown), b, list(underflows[:3]))
     return out
 
 
